@@ -153,6 +153,11 @@ def gen_spec(rng, nmax=12, shape=None, nsig=None, side_acts=False, p_init=0.5,
         if clauses[i][ci] and rng.random() < 0.2:
           q['%d:%s' % (i, cn)] = [[rng.choice(['is_in', 'is_in', 'child_state']), rng.randrange(n)] for _ in range(rng.randint(1, 2))]
     spec['qacts'] = q
+    # ... and reaction handlers (hooks, transitions) that ask is_in / child_state / current_state before they answer
+    for key in sorted(react):
+      rec = react[key]
+      if rec['k'] in ('H', 'T') and rng.random() < 0.25:
+        rec['q'] = [[rng.choice(['is_in', 'child_state', 'current_state']), rng.randrange(n)] for _ in range(rng.randint(1, 2))]
   return spec
 
 
@@ -244,6 +249,7 @@ class Run:
     self.posts_left = 40        # bounds the fan-out of handler-made posts
     self.budget = budget or (200 * spec['n'] * (2 + max(depth_of(spec['parent'], i) for i in range(spec['n']))) + 2000)
     self.fault = fault          # {'kind':..., 'state': i, ...} for C24
+    self.component = None       # another chart that 'dispatch_component' acts hand events to
     self.names = spec['names']
     self.raw = [None] * spec['n']
     self.fns = [None] * spec['n']
@@ -325,6 +331,10 @@ class Run:
         self.log.append(('act', 'scribble', a[1]))
         chart.scribble(a[1])
         self.calls_log.append(('mark', a[1]))
+      elif k == 'dispatch_component':
+        # the handler hands an event to ANOTHER chart (an orthogonal component owned by this one) and lets it run to completion
+        self.log.append(('act', 'dispatch_component', a[1]))
+        self.component.dispatch(Event(signal=a[1]))
       elif k == 'clear_spy':
         # the handler empties the FULL spy in the middle of its own step (the step's own lines are not part of it yet)
         if hasattr(chart, 'clear_spy'):
@@ -397,6 +407,19 @@ class Run:
                 chart.child_state(self.fns[pre[1]])
             if not fired:
               return ret(RS.UNHANDLED)
+          for q, x in r.get('q') or ():
+            # a reaction handler that asks where the chart is before it answers
+            self.queries_in_actions += 1
+            try:
+              if q == 'current_state':
+                if hasattr(chart, 'current_state'):
+                  chart.current_state()
+              else:
+                getattr(chart, q)(self.fns[x])
+            except Budget:
+              raise
+            except Exception:
+              pass                # child_state of a state that is off the active path fails by contract
           self.do_acts(chart, e, r.get('acts'))
           if k == 'H' or r.get('t') is None:
             return ret(RS.HANDLED)
